@@ -8,8 +8,21 @@
      k <fixed01> <rules> <pathhex>      Model.check_str glob_matches fixed (add_patterns empty_rules ..)
                                         rules = <dirhex>:<linehex>,... | -
                                                                     -> NoMatch | Ignore | Whitelist | PANIC
-   Parsing and printing only; the one piece of string preparation is [check_string], the path
-   string IgnoreRules::check builds before it consults the patterns. *)
+     w <fixed01> <nthreads> <globalshex> <entries> <sched> <rounds>
+                                        entries = <d|f><pathhex>[:<contenthex>],... | -   (walkdrv's syntax; children
+                                        of a directory are in the order of first appearance)
+                                        sched = <thread>.<queuepos>,... | -     then <rounds> rounds of round robin
+                                                                    -> spec=<paths>;serial=<paths>|OOF;par=<paths>;final=<0|1>;wf=<0|1>
+                                        (spec and par sorted, serial in the order of the walk; a path is the hex
+                                        of its '/'-joined components)
+     t <fixed01> <nthreads> <globalshex> <entries> <events>
+                                        events = <thread>.<start|pop|merge|check|push|exit>.<pathhex>[.<verdict>],...
+                                        (thread 255 = the thread that called walk_parallel)
+                                                                    -> ok <events accepted> <paths> | bad <events accepted> <reason>
+   Parsing and printing only; the pieces of string preparation are [check_string], the path string
+   IgnoreRules::check builds before it consults the patterns, and [tree_of_entries], which turns the
+   flat entry list into the model's tree (the content of a directory's `.xvcignore` file entry is
+   the directory's ignore text). *)
 open Common
 
 let unhex f = if f = "-" then "" else string_of_hex f
@@ -42,6 +55,60 @@ let check_string (p : string) : string option =
       Some ("/" ^ Stdlib.String.sub p !i (!j - !i) ^ (if final_slash then "/" else ""))
     end else None
   end else Some p
+
+(* ---- trees ------------------------------------------------------------------------------------ *)
+type node = { mutable kids : (string * node) list; (* newest first *) mutable isdir : bool; mutable content : string }
+let new_node isdir content = { kids = []; isdir; content }
+
+let tree_of_entries (entries : string) : (BinNums.coq_N list option) * ((BinNums.coq_N list * Model.tree) list) =
+  let root = new_node true "" in
+  if entries <> "-" then
+    Stdlib.List.iter (fun e ->
+        let kind = e.[0] in
+        let rest = Stdlib.String.sub e 1 (Stdlib.String.length e - 1) in
+        let (p, content) = match Stdlib.String.index_opt rest ':' with
+          | Some i -> (Stdlib.String.sub rest 0 i, unhex (Stdlib.String.sub rest (i + 1) (Stdlib.String.length rest - i - 1)))
+          | None -> (rest, "") in
+        let comps = Stdlib.String.split_on_char '/' (unhex p) in
+        let rec ins (n : node) = function
+          | [] -> ()
+          | [c] ->
+            (match Stdlib.List.assoc_opt c n.kids with
+             | Some k -> if kind = 'f' then (k.isdir <- false; k.content <- content)
+             | None -> n.kids <- (c, new_node (kind = 'd') content) :: n.kids)
+          | c :: r ->
+            let k = match Stdlib.List.assoc_opt c n.kids with
+              | Some k -> k
+              | None -> let k = new_node true "" in n.kids <- (c, k) :: n.kids; k in
+            ins k r in
+        ins root comps)
+      (Stdlib.String.split_on_char ',' entries);
+  let rec conv (n : node) : Model.tree =
+    if not n.isdir then Model.File
+    else Model.Dir (ign_of n, kids_of n)
+  and ign_of n =
+    match Stdlib.List.assoc_opt ".xvcignore" n.kids with
+    | Some k when not k.isdir -> Some (bytes_of_string k.content)
+    | _ -> None
+  and kids_of n = Stdlib.List.rev_map (fun (c, k) -> (bytes_of_string c, conv k)) n.kids in
+  (ign_of root, kids_of root)
+
+let show_path (p : BinNums.coq_N list list) = hex (Stdlib.String.concat "/" (Stdlib.List.map string_of_bytes p))
+let show_paths ps = match ps with [] -> "-" | _ -> Stdlib.String.concat "," (Stdlib.List.map show_path ps)
+let sorted_paths ps =
+  match Stdlib.List.sort compare (Stdlib.List.map show_path ps) with [] -> "-" | l -> Stdlib.String.concat "," l
+let path_of_field f : BinNums.coq_N list list =
+  if f = "-" then [] else Stdlib.List.map bytes_of_string (Stdlib.String.split_on_char '/' (unhex f))
+let bool_of_field = function "1" -> true | "0" -> false | x -> failwith ("bool " ^ x)
+let verdict_of = function
+  | "NoMatch" -> Model.NoMatch | "Ignore" -> Model.Ignore | "Whitelist" -> Model.Whitelist
+  | x -> failwith ("verdict " ^ x)
+let show_error = function
+  | Trace.NotIdle -> "NotIdle" | Trace.NotInQueue -> "NotInQueue" | Trace.NotMerging -> "NotMerging"
+  | Trace.WrongDirectory -> "WrongDirectory" | Trace.NotChecking -> "NotChecking" | Trace.WrongChild -> "WrongChild"
+  | Trace.WrongVerdict v -> "WrongVerdict:model=" ^ show_verdict v | Trace.NotPushing -> "NotPushing"
+  | Trace.StepRefused -> "StepRefused" | Trace.UnfinishedThread -> "UnfinishedThread"
+  | Trace.QueueNotEmpty -> "QueueNotEmpty"
 
 let source_of kind dir = match kind with
   | "g" -> Pattern.SGlobal
@@ -83,6 +150,43 @@ let answer line =
             (Stdlib.List.map (fun (d, l) -> Pattern.pattern_new (Pattern.SFile d) l) items) in
         show_verdict (Model.check_str Match.glob_matches fixed r (bytes_of_string s))
     end
+  | ["w"; fixed; nth; globals; entries; sched; rounds] ->
+    let fixed = bool_of_field fixed in
+    let nth = nat_of_int (int_of_string nth) in
+    let globals = bytes_of_field globals in
+    let (ign, ch) = tree_of_entries entries in
+    let sched = if sched = "-" then [] else Stdlib.List.map (fun it ->
+        match Stdlib.String.split_on_char '.' it with
+        | [i; k] -> (nat_of_int (int_of_string i), nat_of_int (int_of_string k))
+        | _ -> failwith ("sched " ^ it)) (Stdlib.String.split_on_char ',' sched) in
+    let gm = Match.glob_matches in
+    let spec = Model.spec_walk gm fixed globals ign ch in
+    let fuel = Datatypes.S (Model.dir_count (Model.Dir (ign, ch))) in
+    let serial = Model.serial_walk gm fixed fuel globals ign ch in
+    let c = Trace.par_walk_drained gm fixed nth globals ign ch sched (nat_of_int (int_of_string rounds)) in
+    "spec=" ^ sorted_paths spec
+    ^ ";serial=" ^ (match serial with Some l -> show_paths l | None -> "OOF")
+    ^ ";par=" ^ sorted_paths c.Model.c_out
+    ^ ";final=" ^ (if Model.final c then "1" else "0")
+    ^ ";wf=" ^ (if Model.wf_tree (Model.Dir (ign, ch)) then "1" else "0")
+  | ["t"; fixed; nth; globals; entries; events] ->
+    let fixed = bool_of_field fixed in
+    let nthreads = int_of_string nth in
+    let globals = bytes_of_field globals in
+    let (ign, ch) = tree_of_entries entries in
+    let th_of s = let i = int_of_string s in nat_of_int (if i = 255 then nthreads else i) in
+    let evs = if events = "-" then [] else Stdlib.List.map (fun it ->
+        match Stdlib.String.split_on_char '.' it with
+        | [th; "start"; _] -> Trace.EStart (th_of th)
+        | [th; "pop"; p] -> Trace.EPop (th_of th, path_of_field p)
+        | [th; "merge"; p] -> Trace.EMerge (th_of th, path_of_field p)
+        | [th; "check"; p; v] -> Trace.ECheck (th_of th, path_of_field p, verdict_of v)
+        | [th; "push"; p] -> Trace.EPush (th_of th, path_of_field p)
+        | [th; "exit"; _] -> Trace.EExit (th_of th)
+        | _ -> failwith ("event " ^ it)) (Stdlib.String.split_on_char ',' events) in
+    (match Trace.tv_validate Match.glob_matches fixed (nat_of_int nthreads) globals ign ch evs with
+     | (n, Datatypes.Coq_inl out) -> "ok " ^ string_of_n n ^ " " ^ sorted_paths out
+     | (n, Datatypes.Coq_inr e) -> "bad " ^ string_of_n n ^ " " ^ show_error e)
   | _ -> failwith ("bad line: " ^ line)
 
 let () =
